@@ -361,7 +361,9 @@ func (l *BlockchainRpcTxWatcher) observationLoop(
 
 			// Now check if we got enough confirmations. We use first seen - 1
 			// as this is the block the tx was confirmed in the first time.
-			if current-(firstSeen-1) >= l.requiredConfs {
+			// The height of this notification can be older than the height
+			// the lookup above saw; guard the unsigned subtraction.
+			if firstSeen <= current && current-(firstSeen-1) >= l.requiredConfs {
 				// We finally made it, enough confirmations and below the safety
 				// limit!
 				l.callbackAndLog(swapId, rawTx, nil)
